@@ -11,6 +11,15 @@ A sized body (str / bytes / list) with the stream flag is, for the Lean model, t
 without the flag (model_body maps sstr/sbytes/slist/slistb to the model's existing kinds): the body is
 complete, there is nothing to stream, it is delimited by Content-Length and written in one piece.
 
+File-like results are not only regular files: kinds trickle / ragged / pipe are stream objects whose read(n)
+legally returns fewer than n bytes before the end (only b'' is the end) - an object limiting every read to k
+bytes, one with ragged limits below / at / above BUFSIZE, and a real kernel object (socket.makefile('rb',
+buffering=0) of an AF_UNIX SOCK_SEQPACKET pair pre-filled by the harness, one message per read).  For the
+Lean model they are a `Body.stream` whose parts are exactly the pieces read(BUFSIZE) returns until b''
+(read_pieces computes them from the case alone).  With `clen` the handler announces Content-Length itself
+(the tools.serve_file pattern); the model's Resp has no application-set framing header, so those connections
+are judged by C only (histogram connections_not_compared_with_model).
+
  B  correspondence : per request, the recorded events (every write, every close, in order),
                      whether the `_clients` entry is gone and whether the connection was closed
                      == CV.HttpResp.serve (Lean model of prepare/_on_response/_on_stream/_clients)
@@ -91,9 +100,41 @@ def produced_bytes(body):
 SIZED_STREAM_FLAG = {'sstr': 'str', 'sbytes': 'bytes', 'slist': 'list', 'slistb': 'list'}
 
 
+# File-like results whose read(n) legally returns fewer than n bytes before the end of the data (only b'' is
+# the end): body = {'kind': 'trickle' | 'ragged' | 'pipe', 'parts': <data>, 'limits': [k, ...], 'clen': bool}
+#   trickle  limits = [k]: every read returns at most k bytes
+#   ragged   the i-th read returns at most limits[i mod len] bytes (limits below, equal to and above BUFSIZE)
+#   pipe     a real kernel object: socket.makefile('rb', buffering=0) of an AF_UNIX SOCK_SEQPACKET pair filled
+#            by the harness with messages of limits[i mod len] (<= BUFSIZE) bytes; one message per read
+#   clen     the handler announces Content-Length itself (the tools.serve_file pattern)
+# Model: a `stream` Body whose parts are exactly the pieces read(BUFSIZE) returns until it returns b''.
+FILE_LIKE = ('trickle', 'ragged', 'pipe')
+PIPE_MAX_MESSAGES = 256
+MAX_READS = 600
+
+
+def read_pieces(body, bufsize):
+    """the successive results of read(bufsize), computed from the case alone"""
+    data = produced_bytes(body)
+    limits = [max(1, int(x)) for x in body['limits']] or [1]
+    pieces, pos, i = [], 0, 0
+    while pos < len(data):
+        m = min(limits[i % len(limits)], bufsize, len(data) - pos)
+        pieces.append(data[pos:pos + m])
+        pos += m
+        i += 1
+    return pieces
+
+
+def announces_length(rq):
+    return bool(rq['body'].get('clen')) and not rq.get('via')
+
+
 def model_body(body, bufsize):
     """(kind, parts) as Response.body / Response.stream are when prepare() runs"""
     kind = SIZED_STREAM_FLAG.get(body['kind'], body['kind'])   # the stream flag does not change a sized Body
+    if kind in FILE_LIKE:
+        return 'stream', read_pieces(body, bufsize)
     vals = [enc(v) for v in body_parts(body) if v is not None]
     if kind in ('str', 'bytes'):
         whole = b''.join(vals)
@@ -190,6 +231,9 @@ class Impl:
                 spec['status'] = rq.get('status') or 500
             else:
                 spec['body'] = {'kind': b['kind'], 'parts': body_parts(b)}
+                if b['kind'] in FILE_LIKE:
+                    spec['body']['limits'] = list(b['limits'])
+                    spec['body']['clen'] = len(produced_bytes(b)) if b.get('clen') else None
             rig.app.table = {path: spec}
             rig.app.produced = {}
             before = len(rig.wire(tok))
@@ -210,6 +254,7 @@ class Impl:
                 produced = pages[-1] if pages else None
             out.append({'acts': acts, 'stale': rig.clients(tok), 'closed': closed,
                         'produced': produced, 'exc': rig.srv.errors[nerr:]})
+        rig.app.close_opened()
         rig.srv.wire.pop(tok, None)
         rig.srv.http._clients.pop(tok, None)
         rig.srv.http._buffers.pop(tok, None)
@@ -322,7 +367,9 @@ def hdr_tok(n, v):
 KIND_CLASS = {'str': 'sized', 'bytes': 'sized', 'list': 'sized', 'httperror': 'sized',
               'gen': 'iterable', 'sgen': 'stream', 'file': 'stream',
               'sstr': 'sized+stream-flag', 'sbytes': 'sized+stream-flag', 'slist': 'sized+stream-flag',
-              'slistb': 'sized+stream-flag'}
+              'slistb': 'sized+stream-flag',
+              'trickle': 'file-like(short reads)', 'ragged': 'file-like(short reads)',
+              'pipe': 'file-like(short reads)'}
 
 
 def features(case, idx):
@@ -342,6 +389,8 @@ def features(case, idx):
     elif st in (204, 205, 304, 413):
         tags.append(str(st))
     tags.append(KIND_CLASS[rq['body']['kind']])
+    if announces_length(rq):
+        tags.append('length-announced')
     if rq['body']['kind'] != 'httperror':
         vals = [v for v in body_parts(rq['body']) if v is not None]
         if not b''.join(enc(v) for v in vals):
@@ -404,7 +453,12 @@ def evaluate(ctx, impl, cases, shrink=True):
         ok = True
         n = len(c['reqs'])
         # ---- B: correspondence, request by request
-        for i in range(n):
+        # (a Content-Length announced by the handler for a stream body is outside the model - its Resp has no
+        #  application-set framing headers: such connections are judged by C only)
+        modelled = not any(announces_length(rq) for rq in c['reqs'])
+        if not modelled:
+            ctx.count('connections_not_compared_with_model', 'handler announces Content-Length (spec on impl only)')
+        for i in range(n if modelled else 0):
             a = ans[i]
             if a == 'bad-op':
                 ok = False
@@ -462,6 +516,9 @@ def evaluate(ctx, impl, cases, shrink=True):
                             f'response {idx} on the connection: {clause}; requests: '
                             + '; '.join(f"{r['method']} {request_target(r, k)} HTTP/{r['ver']} conn={r.get('conn')} "
                                         f"status={r.get('status')} body={r['body']['kind']}"
+                                        + (f"(read limits {r['body']['limits']}"
+                                           f"{', Content-Length announced' if r['body'].get('clen') else ''})"
+                                           if r['body']['kind'] in FILE_LIKE else '')
                                         for k, r in enumerate(fc['reqs'])))
         # ---- bookkeeping
         for i, rq in enumerate(c['reqs']):
@@ -474,6 +531,13 @@ def evaluate(ctx, impl, cases, shrink=True):
                                           'dot': 'server: path guard 301 (/./c)',
                                           'unknown': 'server: no handler 404'}[rq.get('via')]
                           if rq['body']['kind'] != 'httperror' or rq.get('via') else 'handler returns httperror')
+                if rq['body']['kind'] in FILE_LIKE and not rq.get('via'):
+                    sizes = [len(p) for p in read_pieces(rq['body'], impl.bufsize)]
+                    ctx.count('file_like_reads', rq['body']['kind'] + ': ' + (
+                        'no data' if not sizes else
+                        'short read before the end' if any(x < impl.bufsize for x in sizes[:-1]) else
+                        'one read' if len(sizes) == 1 else 'only full reads before the end'))
+                    ctx.count('file_like_length_announced', 'by the handler' if announces_length(rq) else 'no')
                 ctx.count('status', expects[i]['status'])
                 ln = len(expects[i]['body'])
                 ctx.count('body_size', '0' if ln == 0 else '1-99' if ln < 100 else '100-4095' if ln < 4096
@@ -484,7 +548,7 @@ def evaluate(ctx, impl, cases, shrink=True):
                           'close' if obs[i]['closed'] else 'none(bodyless)')
         ctx.count('requests_per_connection', len(obs))
         ctx.count('connection_end', 'closed' if closed else 'kept-open')
-        ctx.case(c, nontrivial=True, validated=ok)
+        ctx.case(c, nontrivial=True, validated=ok and modelled)
 
 
 def violates(ctx, impl, case):
@@ -571,6 +635,11 @@ def base_bodies():
         ('slistb-first-empty', {'kind': 'slistb', 'parts': [S(''), S('a'), Bt(b'b')]}),
         ('slistb-empty', {'kind': 'slistb', 'parts': []}),
         ('slistb-blank', {'kind': 'slistb', 'parts': [S(''), S('')]}),
+        # file-like objects with short reads
+        ('trickle-1', {'kind': 'trickle', 'parts': [Bt(b'file contents\n')], 'limits': [1]}),
+        ('ragged', {'kind': 'ragged', 'parts': [Bt(b'file \r\n0\r\n\r\ncontents\n')], 'limits': [3, 1, 4096, 2]}),
+        ('pipe', {'kind': 'pipe', 'parts': [Bt(b'file contents\n')], 'limits': [5, 4]}),
+        ('pipe-empty', {'kind': 'pipe', 'parts': [], 'limits': [5]}),
     ]
 
 
@@ -592,6 +661,8 @@ def product_cases():
 
 def sized_body(rng, kind, size):
     """a body of `size` bytes of the given kind, cut into parts where the kind has parts"""
+    if kind in FILE_LIKE:
+        return file_like_body(rng, kind, size, rng.random() < 0.3)
     if kind in ('str', 'bytes', 'file', 'sstr', 'sbytes'):
         if kind in ('str', 'sstr'):
             return {'kind': kind, 'parts': [['rs', 'x', size]]}
@@ -609,6 +680,49 @@ def sized_body(rng, kind, size):
     return {'kind': kind, 'parts': parts}
 
 
+def file_like_body(rng, kind, size, clen=False, limits=None):
+    """a file-like body of `size` position dependent bytes; without `limits`: random read limits"""
+    if limits is None:
+        if kind == 'trickle':
+            limits = [rng.choice([1, 7, 1000, 2048, 4095])]
+        elif kind == 'ragged':
+            limits = [rng.choice([1, 2, 7, 100, 1000, 4095, 4096, 4097, 5000, 9000]) for _ in range(rng.randint(2, 6))]
+        else:
+            limits = [rng.choice([1, 7, 1000, 4095, 4096]) for _ in range(rng.randint(1, 4))]
+    parts = [Bt(bytes((i * 7 + (i >> 8)) % 251 for i in range(size)))] if size <= 10000 else \
+        [Bt(bytes(i % 251 for i in range(4099))), ['rb', '7a', size - 4099]]
+    body = {'kind': kind, 'parts': parts if size else [], 'limits': list(limits)}
+    # keep the number of reads moderate: every piece is a stream + a write event in the rig, and the messages
+    # of a pipe must fit into the socket buffer
+    while len(read_pieces(body, 4096)) > (PIPE_MAX_MESSAGES if kind == 'pipe' else MAX_READS):
+        body['limits'] = [x * 4 for x in body['limits']]
+    if clen:
+        body['clen'] = True
+    return body
+
+
+def short_read_cases(ctx):
+    """directed: file-like results with short reads - sizes 0, 1, below / at / just above BUFSIZE, several
+       chunks - x reader (trickle k in {1, 7, 1000, 4095}, ragged, real SEQPACKET pipe) x HTTP/1.1 and 1.0 x
+       with and without a Content-Length announced by the handler x GET (and HEAD), followed by a second
+       request on the same connection"""
+    rng = ctx.rng
+    cases = []
+    readers = [('trickle', [1]), ('trickle', [7]), ('trickle', [1000]), ('trickle', [4095]),
+               ('ragged', None), ('ragged', [1000, 4096, 10, 3000, 5000]), ('pipe', None), ('pipe', [4096, 1, 4095])]
+    for size in [0, 1, 1000, 4095, 4096, 4097, 8192, 10000, 3 * 4096 + 5]:
+        for ri, (kind, limits) in enumerate(readers):
+            if limits in ([1], [7]) and size > (1000 if limits == [1] else 4097):
+                continue
+            for vi, (ver, conn) in enumerate([('1.1', None), ('1.0', 'keep-alive'), ('1.0', None)]):
+                for clen in (False, True):
+                    method = 'HEAD' if (ri + vi + size) % 5 == 0 else 'GET'
+                    first = {'method': method, 'ver': ver, 'conn': conn, 'status': None,
+                             'body': file_like_body(rng, kind, size, clen, limits)}
+                    cases.append({'kind': 'conn', 'reqs': [first, dict(SECOND, ver=ver, conn=conn)]})
+    return cases
+
+
 def size_cases(ctx):
     rng = ctx.rng
     sizes = [1, 15, 16, 255, 256, 4095, 4096, 4097, 8192, 8193]
@@ -618,9 +732,11 @@ def size_cases(ctx):
         sizes += [70 * 1024]
     cases = []
     for size in sizes:
-        for kind in ['str', 'bytes', 'list', 'gen', 'sgen', 'file', 'sstr', 'sbytes', 'slist', 'slistb']:
+        for kind in ['str', 'bytes', 'list', 'gen', 'sgen', 'file', 'sstr', 'sbytes', 'slist', 'slistb',
+                     'trickle', 'ragged', 'pipe']:
             for ver in ['1.1', '1.0']:
-                if size >= 65535 and ctx.tier == 'quick' and not (kind in ('sgen', 'file', 'gen') and ver == '1.1'):
+                if size >= 65535 and ctx.tier == 'quick' and not (
+                        kind in ('sgen', 'file', 'gen', 'trickle', 'pipe') and ver == '1.1'):
                     continue
                 first = {'method': rng.choice(['GET', 'GET', 'HEAD']), 'ver': ver,
                          'conn': rng.choice([None, 'keep-alive']), 'status': None,
@@ -631,7 +747,7 @@ def size_cases(ctx):
 
 def random_request(rng, keepish=True):
     kind = rng.choice(['str', 'bytes', 'list', 'gen', 'sgen', 'file', 'gen', 'sgen', 'httperror',
-                       'sstr', 'sbytes', 'slist', 'slistb'])
+                       'sstr', 'sbytes', 'slist', 'slistb', 'trickle', 'ragged', 'pipe'])
     ver = rng.choice(['1.1', '1.1', '1.0'])
     if keepish:
         conn = 'keep-alive' if ver == '1.0' and rng.random() < 0.85 else rng.choice([None, None, 'keep-alive', 'close'])
@@ -641,6 +757,11 @@ def random_request(rng, keepish=True):
     if kind == 'httperror':
         status = rng.choice([400, 404, 413, 500, 503])
         body = {'kind': 'httperror', 'parts': []}
+    elif kind in FILE_LIKE:
+        clen = rng.random() < 0.3
+        if clen:        # an announced length goes with a status that has a body
+            status = rng.choice([None, None, 200, 201, 404])
+        body = file_like_body(rng, kind, rng.choice([0, 1, 5, 100, 1000, 4095, 4096, 4097, 9000]), clen)
     else:
         n = rng.randint(0, 5)
         parts = []
@@ -735,12 +856,46 @@ def e2e_size_class(n):
     return {0: '0', 1: '1', 70 * KIB: '70KiB', 2 * MIB: '2MiB', 8 * MIB: '8MiB'}.get(n, f'{n}B')
 
 
-def e2e_req(method, ver, conn, kind, size, piece=0, status=200, via=None):
+def e2e_req(method, ver, conn, kind, size, piece=0, status=200, via=None, clen=False):
     rq = {'method': method, 'ver': ver, 'conn': conn, 'body': kind, 'size': size, 'piece': piece,
           'status': status}
     if via:
         rq['via'] = via
+    if clen:                 # file-like kinds: the handler announces Content-Length itself
+        rq['clen'] = True
     return rq
+
+
+# File-like results with short reads (E2ERoot.ktrickle / kragged / kpipe, ...L = Content-Length announced by the
+# handler): `piece` is the first read limit - trickle: at most `piece` bytes per read; ragged: limits `piece`,
+# 4096, 1, 5000, 4095, 2, 4096, 1000 cycled; pipe: a SEQPACKET socket file filled with messages of `piece`, 4096, 1,
+# 4095, 1000 bytes cycled.
+E2E_SHORT_SIZES = [0, 1, 1000, 4096, 4097, 10000, 70 * KIB]
+
+
+def e2e_short_read_cases():
+    """directed: every reader x size x with / without announced length, on a kept-alive connection (followed by
+       an ordinary request) and as closing request; the cases without announced length first (an announced
+       length that is not delivered costs a timeout)"""
+    cases = []
+    flavours = [('1.1', None, True), ('1.0', None, False), ('1.0', 'keep-alive', True), ('1.1', 'close', False)]
+    readers = [('trickle', 1), ('trickle', 7), ('trickle', 1000), ('trickle', 4095), ('ragged', 1000),
+               ('ragged', 4096), ('pipe', 1000), ('pipe', 1)]
+    n = 0
+    for clen in (False, True):
+        for size in E2E_SHORT_SIZES:
+            for kind, piece in readers:
+                if kind == 'trickle' and piece < 1000 and size > (1000 if piece == 1 else 4097):
+                    continue
+                for k in range(2):
+                    ver, conn, more = flavours[(n + 2 * k) % 4 if k else n % 4]
+                    method = 'HEAD' if n % 7 == 3 else 'GET'
+                    reqs = [e2e_req(method, ver, conn, kind, size, piece, 200, clen=clen)]
+                    if more:
+                        reqs.append(e2e_req('GET', ver, conn, 'bytes', 1))
+                    cases.append({'kind': 'e2e', 'sndbuf': E2E_SNDBUF, 'reqs': reqs})
+                    n += 1
+    return cases
 
 
 # (via, status, method) of the requests that are answered by the server itself / by an error or redirect event
@@ -802,7 +957,7 @@ E2E_VIA_HANDLER = {'event': None, 'notfound': 404, 'forbidden': 403, 'redirect':
 def e2e_target(rq, tag):
     """-> (request target as sent, the normal form a redirect may point to)"""
     via = rq.get('via')
-    plain = f"/k{rq['body']}/{rq['size']}/{rq['piece']}/{rq['status']}/{tag}"
+    plain = f"/k{rq['body']}{'L' if rq.get('clen') else ''}/{rq['size']}/{rq['piece']}/{rq['status']}/{tag}"
     if via == 'dotdot':
         return '/x/..' + plain, plain
     if via == 'dot':
@@ -1039,7 +1194,7 @@ def e2e_evaluate(ctx, cases, shrink=True):
                 ctx.count('e2e_method', rq['method'])
                 ctx.count('e2e_version', rq['ver'])
                 ctx.count('e2e_connection_header', rq.get('conn') or 'absent')
-                ctx.count('e2e_body_kind', rq['body'])
+                ctx.count('e2e_body_kind', rq['body'] + (' + Content-Length announced' if rq.get('clen') else ''))
                 ctx.count('e2e_body_size', e2e_size_class(rq['size']))
                 ctx.count('e2e_status', ob['status'])
                 ctx.count('e2e_answered_by', E2E_ANSWERED_BY[rq.get('via')])
@@ -1068,7 +1223,8 @@ def e2e_evaluate(ctx, cases, shrink=True):
                             f"{ff['detail']}; requests: "
                             + '; '.join(f"{r['method']} HTTP/{r['ver']} conn={r.get('conn')} status={r['status']} "
                                         + (f"via={r['via']}" if r.get('via') else
-                                           f"body={r['body']}[{r['size']} B, pieces of {r['piece'] or 'all'}]")
+                                           f"body={r['body']}[{r['size']} B, pieces of {r['piece'] or 'all'}"
+                                           f"{', Content-Length announced' if r.get('clen') else ''}]")
                                         for r in fc['reqs']))
                 failing_s += time.time() - t0
             ctx.case(c, nontrivial=True, validated=failure is None)
@@ -1092,6 +1248,13 @@ def e2e_case_list(ctx):
         if rng.random() < self_answered:
             via, status, method = rng.choice(E2E_SELF_ANSWERED)
             return e2e_self_answered(via, status, method, '1.1', rng.choice([None, None, 'keep-alive']))
+        if rng.random() < 0.15:
+            clen = rng.random() < 0.3
+            return e2e_req(rng.choice(['GET', 'GET', 'HEAD']), '1.1', rng.choice([None, None, 'keep-alive']),
+                           rng.choice(FILE_LIKE), rng.choice([0, 1, 1000, 4096, 4097, 10000]),
+                           rng.choice([7, 1000, 2048, 4095]),
+                           rng.choice([200, 200, 201, 404]) if clen else rng.choice([200, 200, 201, 404, 204, 304]),
+                           clen=clen)
         return e2e_req(rng.choice(['GET', 'GET', 'HEAD']), '1.1', rng.choice([None, None, 'keep-alive']),
                        rng.choice(E2E_KINDS), rng.choice(small_sizes), rng.choice(pieces),
                        rng.choice([200, 200, 200, 200, 201, 404, 204, 304]))
@@ -1119,6 +1282,8 @@ def e2e_case_list(ctx):
                 cases.append(case([e2e_req('HEAD', ver, conn, kind, size, piece)]))
     # (d) every self-answered request kind on kept-alive connections, mixed with ordinary requests
     cases += e2e_keepalive_sequence_cases()
+    # (d') file-like results with short reads
+    cases += e2e_short_read_cases()
     # (e) random connections
     for _ in range(16 * ctx.scale):
         reqs = []
@@ -1126,7 +1291,7 @@ def e2e_case_list(ctx):
         for k in range(nreq):
             last = k == nreq - 1
             rq = small(0.2)
-            if not rq.get('via') and rng.random() < 0.25:
+            if not rq.get('via') and rq['body'] not in FILE_LIKE and rng.random() < 0.25:
                 rq.update(size=rng.choice(sizes), status=200)
                 if rq['size'] >= MIB:
                     rq['piece'] = rng.choice([512 * KIB, 65537, 0])
@@ -1152,12 +1317,16 @@ def run(ctx):
               tuple(impl.server_protocol) == (1, 1), repr(impl.server_protocol))
     ctx.param('BUFSIZE > 0  (file bodies are cut into BUFSIZE pieces by the harness as file_generator does)',
               isinstance(impl.bufsize, int) and impl.bufsize > 0, repr(impl.bufsize))
-    ctx.rule = ('full product {GET,HEAD} x {1.1,1.0} x Connection{absent,keep-alive,close} x 27 body shapes '
+    ctx.rule = ('full product {GET,HEAD} x {1.1,1.0} x Connection{absent,keep-alive,close} x 31 body shapes '
                 '(str/bytes/list/unsized iterable/streamed generator/file/httperror, and str/bytes/list with '
                 'response.stream = True set by the handler - returned, or the list assigned to response.body - which the '
-                'model treats as the same sized Body as without the flag; empty, blank parts, first part '
+                'model treats as the same sized Body as without the flag; file-like objects with short reads: trickle / '
+                'ragged / SEQPACKET pipe, for the model a stream Body of the pieces read(BUFSIZE) returns; empty, blank parts, first part '
                 'empty) x 10 statuses, each followed by a second request on the same connection (exhaustive over '
-                'that table); directed keep-alive sequences: 5 version/Connection flavours x 8 self-answered '
+                'that table); directed short-read cases: sizes {0, 1, 1000, 4095, 4096, 4097, 8192, 10000, 3*4096+5} x readers '
+                '{trickle k=1/7/1000/4095, ragged random and fixed, pipe random and fixed} x {HTTP/1.1, HTTP/1.0 keep-alive, '
+                'HTTP/1.0} x {no length announced, Content-Length announced by the handler (C only, not compared with '
+                'the model)}, GET and HEAD, each followed by a second request; directed keep-alive sequences: 5 version/Connection flavours x 8 self-answered '
                 'request kinds (un-normalised path /x/../c and /./c -> 301 of the path guard, GET and HEAD; unknown '
                 'path -> 404, GET and HEAD; handler returns httperror 404/403/500) x 4 positions (first, after a '
                 'GET, after a HEAD, after a stream-flagged list), each followed by two further requests of other kinds; body sizes around '
@@ -1170,7 +1339,9 @@ def run(ctx):
                 'http.client.HTTPConnection over loopback: 10 body kinds (bytes, str, list, generator, streamed '
                 'generator, file object, and str / bytes / list / list-via-response.body with response.stream = True) x sizes {0, 1, 70 KiB, 2 MiB (+ 8 MiB thorough)}, each once first on an '
                 'HTTP/1.1 keep-alive connection of 2-3 requests and once as HTTP/1.0 / Connection: close / '
-                'HTTP/1.0 keep-alive request (GET and HEAD), plus 78 directed keep-alive sequences (13 '
+                'HTTP/1.0 keep-alive request (GET and HEAD), plus directed short-read cases (file-like results trickle / '
+                'ragged / SEQPACKET pipe x sizes {0, 1, 1000, 4096, 4097, 10000, 70 KiB} x with / without a Content-Length '
+                'announced by the handler x kept-alive with a further request / closing, GET and HEAD), plus 78 directed keep-alive sequences (13 '
                 'self-answered request kinds: un-normalised path, unknown path, handler returning httperror / '
                 'notfound / forbidden / redirect, GET and HEAD x HTTP/1.1, HTTP/1.1 keep-alive, HTTP/1.0 keep-alive x '
                 'first / after ordinary requests, 4-5 requests each), plus random connections (20% of the small '
@@ -1191,7 +1362,10 @@ def run(ctx):
                     'e2e group: http.client.HTTPConnection/HTTPResponse as the independent client (HTTP/1.0 request '
                     'lines via its _http_vsn attributes), the loopback TCP stack of the kernel, a dup()ed socket '
                     'handle to observe the server side close']
-    ctx.assumptions += ['the application does not set Content-Length / Transfer-Encoding / Connection itself',
+    ctx.assumptions += ['the application does not set Transfer-Encoding / Connection itself, and Content-Length only '
+                        'for a file-like stream body and then correctly (the serve_file pattern)',
+                        'file-like bodies: read(n) returns at most n bytes and b\'\' only at the end of the data; '
+                        'at most 600 reads per body (256 messages for the SEQPACKET pipe)',
                         'request cookies absent; generator handlers (coroutines) are C04/C06',
                         'the body iterator does not raise',
                         'e2e group: spec on impl only (not compared with the Lean model; the transport below the '
@@ -1200,7 +1374,8 @@ def run(ctx):
                         '64 KiB set through the public socket_options keyword so that send() accepts only part of '
                         'a large piece']
     corpus = ctx.corpus()
-    groups = [[c for c in corpus if c.get('kind') != 'e2e'], keepalive_sequence_cases(), product_cases(),
+    groups = [[c for c in corpus if c.get('kind') != 'e2e'], keepalive_sequence_cases(), short_read_cases(ctx),
+              product_cases(),
               size_cases(ctx), sequence_cases(ctx)]
     e2e_evaluate(ctx, [c for c in corpus if c.get('kind') == 'e2e'])
     for cases in groups:
